@@ -15,6 +15,7 @@ import (
 	"pgregory.net/rapid"
 
 	gnet "github.com/panjf2000/gnet/v2"
+	"github.com/panjf2000/gnet/v2/internal/vshim"
 	"github.com/panjf2000/gnet/v2/verifx/fx"
 	"github.com/panjf2000/gnet/v2/verifx/vio"
 	"github.com/panjf2000/gnet/v2/verifx/vstat"
@@ -48,6 +49,9 @@ type connSpec struct {
 type caseSpec struct {
 	Cfg   fx.Cfg
 	Conns []connSpec
+	// ShortReads (LT mode only): the shim hands the kernel only this share of the read buffer
+	// (0 = EAGAIN), i.e. real short reads of generated sizes
+	ShortReads []int
 }
 
 func (o op) String() string {
@@ -84,7 +88,7 @@ func selName(k int) string {
 
 func (c caseSpec) String() string {
 	var b strings.Builder
-	fmt.Fprintf(&b, "cfg: %s\n", c.Cfg)
+	fmt.Fprintf(&b, "cfg: %s shortReads%%=%v\n", c.Cfg, c.ShortReads)
 	for i, cs := range c.Conns {
 		fmt.Fprintf(&b, " conn%d: segments %v ending %d closeAt %d drainAtClose %v script %v\n", i, cs.Segs, cs.Ending, cs.CloseAt, cs.Drain, cs.Script)
 	}
@@ -132,6 +136,7 @@ type connState struct {
 	afterClose int32
 	// labels
 	leftover, spanPeek, bigLeftover, failWriter, crossDiscard bool
+	plan                                                      *vshim.Plan
 }
 
 func (st *connState) failf(key, f string, a ...any) {
@@ -149,6 +154,9 @@ func (st *connState) expect(off, n int) []byte {
 }
 
 func (st *connState) OnOpen(c gnet.Conn) ([]byte, gnet.Action) {
+	if st.plan != nil {
+		st.plan.Track(c.Fd())
+	}
 	if atomic.AddInt32(&st.opened, 1) != 1 {
 		st.failf("in-open-twice", "OnOpen called again")
 	}
@@ -362,13 +370,18 @@ func firstDiff(a, b []byte) int {
 // ---- session ---------------------------------------------------------------------------
 
 type result struct {
-	fails  []string
-	stalls []string
-	infra  string
-	states []*connState
+	fails     []string
+	stalls    []string
+	infra     string
+	states    []*connState
+	shortHits int64
 }
 
 func runSession(cs caseSpec) (res result) {
+	plan := &vshim.Plan{ShortReads: cs.ShortReads}
+	vshim.Install(plan)
+	defer vshim.Install(nil)
+	defer func() { res.shortHits = plan.ShortHits }()
 	e, err := fx.Start(cs.Cfg, fx.EngineHooks{})
 	if err != nil {
 		res.infra = err.Error()
@@ -387,7 +400,7 @@ func runSession(cs caseSpec) (res result) {
 	addFail := func(s string) { mu.Lock(); res.fails = append(res.fails, s); mu.Unlock() }
 	addStall := func(s string) { mu.Lock(); res.stalls = append(res.stalls, s); mu.Unlock() }
 	for i := range cs.Conns {
-		st := &connState{id: i, spec: cs.Conns[i], cfg: cs.Cfg, closedCh: make(chan struct{})}
+		st := &connState{id: i, spec: cs.Conns[i], cfg: cs.Cfg, plan: plan, closedCh: make(chan struct{})}
 		res.states = append(res.states, st)
 		peer, _, err := e.Connect(st)
 		if err != nil {
@@ -513,6 +526,13 @@ func runSession(cs caseSpec) (res result) {
 func drawCase(t *rapid.T) caseSpec {
 	var cs caseSpec
 	cs.Cfg = fx.DrawCfg(t, fx.DrawOpt{})
+	if !cs.Cfg.ET && rapid.IntRange(0, 2).Draw(t, "shortReads") == 0 {
+		n := rapid.IntRange(1, 6).Draw(t, "nShort")
+		for i := 0; i < n; i++ {
+			cs.ShortReads = append(cs.ShortReads, rapid.SampledFrom([]int{0, 1, 1, 10, 50, 99, 100}).Draw(t, "pct"))
+		}
+		cs.ShortReads = append(cs.ShortReads, 50) // a cycle of EAGAINs only would never make progress
+	}
 	rc := cs.Cfg.ReadCap
 	nconn := rapid.IntRange(1, 4).Draw(t, "conns")
 	kinds := []string{"peek", "discard", "peekdiscard", "next", "read", "writeto", "buffered"}
@@ -619,6 +639,9 @@ func TestC01Sessions(t *testing.T) {
 		}
 		if cs.Cfg.Net == "unix" {
 			st.Label("unix")
+		}
+		if res.shortHits > 0 {
+			st.Label("session_with_shim_shortened_reads")
 		}
 		if st.WantSample(nt) {
 			st.Sample(nt, cs.String())
